@@ -65,13 +65,16 @@ type Field struct {
 	Nested  []*Field // anonymous struct
 	Markers []Marker
 	Extra   []string // extra (non-marker) comment lines in the doc group
+	Embed   bool     // embedded field: rendered without a name (Names holds the type name it is selected by)
 }
 
 type Decl struct {
-	Name    string
-	Markers []Marker
-	Fields  []*Field
-	Group   string // "" or a group id: rendered inside `type ( … )`
+	Name     string
+	Markers  []Marker
+	Fields   []*Field
+	Group    string   // "" or a group id: consecutive decls with the same id are rendered inside one `type ( … )`
+	GroupDoc []Marker // markers on the GenDecl of the group (apply to every spec); the decl's own Markers sit on its spec
+	PreSpec  string   // a non-struct spec rendered before this decl inside the group, e.g. "N7 int"
 }
 
 type NamedDecl struct{ Name, Src string }
@@ -123,7 +126,8 @@ func (d *Decl) Sexp() string {
 	for _, f := range d.Fields {
 		fs = append(fs, f.Sexp())
 	}
-	return "(decl " + d.Name + " " + docSexp(d.Markers, nil) + " " + strings.Join(fs, " ") + ")"
+	all := append(append([]Marker{}, d.GroupDoc...), d.Markers...)
+	return "(decl " + d.Name + " " + docSexp(all, nil) + " " + strings.Join(fs, " ") + ")"
 }
 
 func writeFields(sb *strings.Builder, fs []*Field, indent string) {
@@ -139,7 +143,7 @@ func writeFields(sb *strings.Builder, fs []*Field, indent string) {
 			writeFields(sb, f.Nested, indent+"\t")
 			sb.WriteString(indent + "}\n\n")
 		} else {
-			if len(f.Names) == 0 {
+			if f.Embed {
 				sb.WriteString(indent + f.Type.Src + "\n\n")
 			} else {
 				sb.WriteString(indent + strings.Join(f.Names, ", ") + " " + f.Type.Src + "\n\n")
@@ -154,13 +158,36 @@ func (s *Scenario) Source(pkg string) string {
 	for _, n := range s.Named {
 		sb.WriteString("type " + n.Name + " " + n.Src + "\n\n")
 	}
-	for _, d := range s.Decls {
-		for _, m := range d.Markers {
+	for i := 0; i < len(s.Decls); i++ {
+		d := s.Decls[i]
+		if d.Group == "" {
+			for _, m := range d.Markers {
+				sb.WriteString(m.Comment() + "\n")
+			}
+			sb.WriteString("type " + d.Name + " struct {\n")
+			writeFields(&sb, d.Fields, "\t")
+			sb.WriteString("}\n\n")
+			continue
+		}
+		for _, m := range d.GroupDoc {
 			sb.WriteString(m.Comment() + "\n")
 		}
-		sb.WriteString("type " + d.Name + " struct {\n")
-		writeFields(&sb, d.Fields, "\t")
-		sb.WriteString("}\n\n")
+		sb.WriteString("type (\n")
+		j := i
+		for ; j < len(s.Decls) && s.Decls[j].Group == d.Group; j++ {
+			g := s.Decls[j]
+			if g.PreSpec != "" {
+				sb.WriteString("\t" + g.PreSpec + "\n\n")
+			}
+			for _, m := range g.Markers {
+				sb.WriteString("\t" + m.Comment() + "\n")
+			}
+			sb.WriteString("\t" + g.Name + " struct {\n")
+			writeFields(&sb, g.Fields, "\t\t")
+			sb.WriteString("\t}\n\n")
+		}
+		sb.WriteString(")\n\n")
+		i = j - 1
 	}
 	sb.WriteString(s.Raw)
 	return sb.String()
